@@ -99,6 +99,11 @@ theorem step_inv {s s' : St} {a : Act} (h : step s a = some s') (hi : Inv s) : I
     simp only [step] at h
     simp at h; subst h
     exact ⟨fifo, chanB, poolB, infl, sawEmpty, lpcLock, sawNonEmpty⟩
+  | recvTimeout =>
+    simp only [step] at h
+    split at h <;> simp at h
+    subst h
+    exact ⟨fifo, chanB, poolB, infl, sawEmpty, lpcLock, sawNonEmpty⟩
   | recvTake =>
     simp only [step] at h
     split at h
